@@ -217,8 +217,8 @@ func miCase(c *corr.Ctx, d *miDesc) (corr.Case, error) {
 		all = append(all, t.key(d))
 	}
 	// `N i` inside the observations refers to the i-th inserted entry
-	term := fmt.Sprintf("let ops := %s in let N := fun i => nth (N.to_nat i) ops (E \"\" 0 0 \"\") in Cm ops %s %s %s",
-		corr.List(es), corr.List(tg), so, ao)
+	term := fmt.Sprintf("let ops := %s in let N := fun i => nth (N.to_nat i) ops (E \"\" 0 0 \"\") in Cm %s ops %s %s %s",
+		corr.List(es), corr.Bool(d.Concurrent), corr.List(tg), so, ao)
 	safe := radixSafe(all)
 	if safe {
 		c.Count("radix_safe_cases")
